@@ -1290,7 +1290,7 @@ fn calls_self_method(b: &syn::Block, method: &str) -> bool {
     }
     let mut v = V { method, found: false };
     syn::visit::Visit::visit_block(&mut v, b);
-    v.found
+    v.found || quote::quote!(#b).to_string().contains(&format!("Self :: {method} ("))
 }
 
 fn gen_client(repo: &Path, g: &mut Gen) -> R<()> {
@@ -1310,7 +1310,31 @@ fn gen_client(repo: &Path, g: &mut Gen) -> R<()> {
     let pn = pn.ok_or_else(|| Shape(format!("{sub_rel}: `impl Stream for Subscriber` has no fn poll_next")))?;
     // `self.poll_next(cx)` / `self.as_mut().poll_next(cx)` inside poll_next: the subscriber re-enters itself for the
     // frame after a batch; `self.stream.poll_next_unpin(cx)` (the inner stream) is a different method
-    let recurses = calls_self_method(&pn.block, "poll_next");
+    // … directly, or through other methods of `Subscriber` that call each other (a cycle reachable from `poll_next`)
+    let recurses = {
+        let mut methods: BTreeMap<String, syn::Block> = BTreeMap::new();
+        for it in &sub.ast.items {
+            if let Item::Impl(im) = it {
+                let ty = &im.self_ty;
+                if quote::quote!(#ty).to_string().starts_with("Subscriber") {
+                    for ii in &im.items { if let ImplItem::Fn(f) = ii { methods.insert(f.sig.ident.to_string(), f.block.clone()); } }
+                }
+            }
+        }
+        let calls = |b: &syn::Block| -> Vec<String> { methods.keys().filter(|m| calls_self_method(b, m)).cloned().collect() };
+        // depth-first search from poll_next: a method met again while it is still on the stack closes a cycle
+        fn dfs(m: &str, methods: &BTreeMap<String, syn::Block>, calls: &dyn Fn(&syn::Block) -> Vec<String>, stack: &mut Vec<String>, done: &mut Vec<String>) -> bool {
+            if stack.iter().any(|x| x == m) { return true; }
+            if done.iter().any(|x| x == m) { return false; }
+            stack.push(m.to_string());
+            let mut cyc = false;
+            if let Some(b) = methods.get(m) { for c in calls(b) { if dfs(&c, methods, calls, stack, done) { cyc = true; break; } } }
+            stack.pop();
+            done.push(m.to_string());
+            cyc
+        }
+        calls_self_method(&pn.block, "poll_next") || dfs("poll_next", &methods, &calls, &mut vec![], &mut vec![])
+    };
     let mut s = String::new();
     let _ = writeln!(s, "/-- {sub_rel}: does `Subscriber::poll_next` call itself (one stack frame per frame that yields nothing)? -/\ndef subscriberPollNextRecurses : Bool := {recurses}");
     // requestor: is the hand-over of the request to the transport (`….send(frame)`) inside the future that
